@@ -6,6 +6,7 @@ import os
 import random
 import shutil
 import tempfile
+import time
 
 import common as C
 
@@ -201,6 +202,314 @@ def check_findings(rep):
         shutil.rmtree(base, ignore_errors=True)
 
 
+# --------------------------------------------------------------------------- fault dimension
+# A second module, with nested keeps and a load: its plain execution (dds.keep(p, f) = f(), dds.load(p) = the value last kept at p)
+# gives every expected value; nothing below is taken from what the store does.
+FMOD = '''import dds
+
+KA = "str"
+KB = "bytes"
+KT = "obj"
+SALT = "s0"
+
+
+def fa():
+    if KA == "str":
+        return "a-é-" + SALT
+    if KA == "bytes":
+        return b"\\x00a\\xff" + SALT.encode()
+    if KA == "none":
+        return None
+    return {"a": [1, SALT]}
+
+
+def fb():
+    if KB == "str":
+        return "b-é-" + SALT
+    if KB == "bytes":
+        return b"\\x00b\\xff" + SALT.encode()
+    if KB == "none":
+        return None
+    return {"b": [2, SALT]}
+
+
+def inner():
+    a = dds.keep("/n/a", fa)
+    b = dds.keep("/n/d/b", fb)
+    if KT == "str":
+        return "t-" + repr(a) + repr(b)
+    if KT == "bytes":
+        return b"\\x00t\\xff" + repr((a, b)).encode()
+    return [a, b, SALT]
+
+
+def top():
+    return dds.keep("/n/top", inner)
+
+
+def user():
+    return ["u", dds.load("/n/a"), SALT]
+'''
+FAULT_MODES = {"head": ["before"], "put": ["before", "after"], "cp": ["before", "after", "torn"], "rm": ["before", "after"]}
+FAULT_EXCS = ["error", "kill"]
+DATA = "dbfs:/s/data"
+BLOBS = "dbfs:/s/internal/blobs/"
+
+
+class Plain(object):
+    """Plain execution of FMOD: the reference the store is compared with."""
+
+    def __init__(self, defaults):
+        self.kept = {}
+        plain = self
+
+        class Stub(object):
+            @staticmethod
+            def keep(p, f, *a, **k):
+                plain.kept[p] = f(*a, **k)
+                return plain.kept[p]
+
+            @staticmethod
+            def load(p):
+                return plain.kept[p]
+
+            @staticmethod
+            def eval(f, *a, **k):
+                return f(*a, **k)
+        self.g = {"dds": Stub}
+        exec(FMOD.replace("import dds\n", ""), self.g)
+        self.g.update(defaults)
+
+    def do(self, step):
+        self.g.update(step.get("set", {}))
+        if "keep" in step:
+            return self.g["dds"].keep(step["keep"][0], self.g[step["keep"][1]])
+        if "eval" in step:
+            return self.g[step["eval"]]()
+        return self.kept[step["load"]]
+
+
+def fault_scenarios(rng, tier):
+    """(shape, commit type, payload) for every scenario of the fault sweep.  In each of them the steps after the fault keep again
+    every path the faulted step keeps, so the expected final state is the one of the plain execution of prefix + after."""
+    kinds = ["str", "bytes", "obj"] + ([] if tier == "quick" else ["none"])
+    few, some = (10, 14) if tier == "quick" else (None, None)      # quick: a sample of the faults of the longer scenarios (the first keep: every one)
+    out = []
+
+    def add(shape, ct, defaults, prefix, faulted, after, paths, mx=None):
+        d = dict({"KA": "str", "KB": "bytes", "KT": "obj", "SALT": "s0"}, **defaults)
+        out.append({"shape": shape, "commit_type": ct, "defaults": d, "prefix": prefix, "faulted": faulted, "after": after, "paths": paths,
+                    "modes": FAULT_MODES, "excs": FAULT_EXCS, "torn_put": False, "only": None, "max": mx, "seed": rng.randrange(1 << 30)})
+    s0, s1 = {"set": {"SALT": "s0"}}, {"set": {"SALT": "s1"}}
+    nested_paths = ["/n/top", "/n/a", "/n/d/b"]
+    for ct in ("full", "links_only", "none"):
+        # a first keep of one result, every value type
+        for k in kinds:
+            p = rng.choice(["/p", "/d/q", "/d/e/r"])
+            st = dict(s0, keep=[p, "fa"])
+            add("first-keep", ct, {"KA": k}, [], st, [st], [p])
+        k = rng.choice(kinds)
+        # the code changed: the path has a record (and a copy) of the previous result
+        st0, st1 = dict(s0, keep=["/d/q", "fa"]), dict(s1, keep=["/d/q", "fa"])
+        add("keep-after-change", ct, {"KA": k}, [st0], st1, [st1], ["/d/q"], mx=few)
+        # nothing changed: the blob is there, the evaluation only reads it back
+        add("keep-unchanged", ct, {"KA": k}, [st0], st0, [st0], ["/d/q"], mx=few)
+        # the same result kept at a second path: the blob is there, only the path is new
+        st2 = dict(s0, keep=["/d2/q", "fa"])
+        add("keep-at-second-path", ct, {"KA": k}, [st0], st2, [st2], ["/d/q", "/d2/q"], mx=few)
+        # nested keeps, committed by one call for three paths; through keep and through eval
+        ks = {"KA": rng.choice(kinds), "KB": rng.choice(kinds), "KT": rng.choice(["str", "bytes", "obj"])}
+        stn = dict(s0, keep=["/n/top", "inner"]) if rng.random() < 0.5 else dict(s0, eval="top")
+        add("nested-keeps", ct, ks, [], stn, [stn], nested_paths, mx=some)
+        # ... when one of the inner results is already there
+        add("nested-keeps-one-present", ct, ks, [dict(s0, keep=["/n/a", "fa"])], stn, [stn], nested_paths, mx=few)
+        if tier != "quick":
+            stn1 = dict(stn, set={"SALT": "s1"})
+            add("nested-keeps-after-change", ct, ks, [stn], stn1, [stn1], nested_paths)
+            for _ in range(3):
+                ks2 = {"KA": rng.choice(kinds), "KB": rng.choice(kinds), "KT": rng.choice(["str", "bytes", "obj"])}
+                add("nested-keeps", ct, ks2, [], stn, [stn], nested_paths)
+        # the change is taken back after the fault: the path returns to the result its record names
+        add("revert-after-fault", ct, {"KA": k}, [st0], st1, [st0], ["/d/q"], mx=few)
+        add("revert-after-fault-then-again", ct, {"KA": k}, [st0], st1, [st0, st1], ["/d/q"], mx=few)
+        if ct != "none":
+            # a load (outside any evaluation) hits the fault; loading again must work
+            ld = {"load": "/d/q"}
+            add("load", ct, {"KA": k}, [st0], ld, [ld], ["/d/q"])
+            # an evaluation that loads a path kept before
+            su = dict(s0, keep=["/u", "user"])
+            add("keep-with-load", ct, {"KA": k}, [dict(s0, keep=["/n/a", "fa"])], su, [su], ["/n/a", "/u"], mx=few)
+    return out
+
+
+def raw_bytes(v):
+    return v.encode("utf-8") if isinstance(v, str) else v if isinstance(v, bytes) else None
+
+
+def check_fault_trial(sc, t, refmap, plain_values):
+    """The violations (key, text) of one trial, and how many of them concern the faulted call and the state right after it.
+    Expected values: plain execution; refmap: key -> value of the fault-free trial, used only after it has been checked against the plain values."""
+    mode = expected_mode(sc["commit_type"])
+    bad = []
+    pl = Plain(sc["defaults"])
+    want_prefix = ["V:" + repr(pl.do(s)) for s in sc["prefix"]]
+    if t["prefix"] != want_prefix:
+        return [("prefix-wrong", f"the steps before the fault returned {t['prefix']} instead of {want_prefix}")], 1
+    kept_before = dict(pl.kept)
+    try:
+        want_faulted = "V:" + repr(pl.do(sc["faulted"]))
+    except KeyError:
+        want_faulted = None
+    kept_faulted = dict(pl.kept)
+
+    def blobs_ok(probe, when):
+        for k, b in probe["blobs"].items():
+            if b["has"] == "V:True" and (not str(b["fetch"]).startswith("V:") or (k in refmap and b["fetch"] != refmap[k])):
+                bad.append(("blob-present-but-not-fetchable", f"{when} has_blob({k[:6]}..) is True but fetch_blob gives {str(b['fetch'])[:70]}"
+                            + (f" (the value of this key is {refmap[k][2:40]})" if k in refmap else "")))
+
+    def state_ok(probe, files, kept, when, strict):
+        """strict: the state the property demands after a completed evaluation; otherwise only 'load works when the record exists'."""
+        for p, o in probe["paths"].items():
+            rec, obj = DATA + "/_dds_meta" + p, DATA + p
+            has_rec = o["record"].startswith("V:")
+            if has_rec:
+                k = o["record"][3:-1]
+                if not str(o["load"]).startswith("V:") or (k in refmap and o["load"] != refmap[k]):
+                    bad.append(("record-but-load-fails", f"{when} the record of {p} exists (key {k[:6]}..) but load gives {str(o['load'])[:70]}"))
+            if not strict:
+                continue
+            if mode == "NO_COMMIT" or p not in kept:
+                if has_rec or rec in files or obj in files:
+                    bad.append(("uncommitted-path-visible:" + mode, f"{when} {p} has a record or a file under {mode}" + ("" if p in kept else " although it was never kept")))
+                continue
+            want = "V:" + repr(kept[p])
+            if not has_rec:
+                bad.append(("record-missing:" + mode, f"{when} no redirect record for {p} under {mode}"))
+            elif o["load"] != want:
+                bad.append(("load-wrong:" + mode, f"{when} load({p}) gives {str(o['load'])[:60]} instead of {want[:60]}"))
+            if mode == "FULL":
+                blob = files.get(BLOBS + o["record"][3:-1]) if has_rec else None
+                raw = raw_bytes(kept[p])
+                if obj not in files or (blob is not None and files[obj] != blob) or (raw is not None and files[obj] != raw.hex()):
+                    bad.append(("full-copy-missing-or-stale", f"{when} the copy at {obj} is {'missing' if obj not in files else 'not byte-identical to the result'}"))
+            if mode == "LINK_ONLY" and obj in files:
+                bad.append(("links-only-copies-data", f"{when} links-only commit wrote {obj}"))
+        if strict:
+            known = set(DATA + "/_dds_meta" + p for p in kept) | set(DATA + p for p in kept)
+            extra = sorted(f for f in files if f.startswith(DATA) and f not in known)
+            if extra:
+                bad.append(("stray-files", f"{when} unexpected files below the data directory: {extra[:3]}"))
+
+    # 1. the faulted call: it may raise anything, but a value it returns is the right one, and then its work is complete
+    when = "after the faulted call"
+    if t["faulted"].startswith("V:"):
+        if t["faulted"] != want_faulted:
+            bad.append(("faulted-call-returns-wrong-value", f"the faulted call returned {t['faulted'][2:50]} instead of {str(want_faulted)[2:50]}"))
+        elif "load" not in sc["faulted"]:
+            state_ok(t["mid"], t["mid_files"], kept_faulted, "the faulted call returned normally, and", True)
+    # 2. right after the fault: nothing is reported present that cannot be read back
+    blobs_ok(t["mid"], when)
+    state_ok(t["mid"], t["mid_files"], kept_before, when, False)
+    # 3. the evaluations after, without fault
+    early = len(bad)
+    pl.kept = dict(kept_before)
+    for s, o in zip(sc["after"], t["after"]):
+        want = "V:" + repr(pl.do(s))
+        if o != want:
+            what = "load" if "load" in s else "evaluation"
+            bad.append(("retry-fails" if not o.startswith("V:") else "retry-wrong-value",
+                        f"the {what} run again without fault (SALT={pl.g['SALT']}) gives {o[:90]} instead of {want[:50]}"))
+    when = "after the run without fault"
+    blobs_ok(t["end"], when)
+    state_ok(t["end"], t["files"], pl.kept, when, True)
+    for p, o in t["loads"].items():
+        if (p not in pl.kept or mode == "NO_COMMIT") and o.startswith("V:"):
+            bad.append(("none-load-works", f"{when} load({p}) returned {o[:40]} although nothing was committed"))
+    if bad and bad[0][0] == "faulted-call-returns-wrong-value":
+        later = [x for x in bad[early:] if x[0] == "retry-wrong-value"]
+        if later:       # the wrong value was written under the key of the right one
+            bad[0] = ("wrong-value-stored-for-good", bad[0][1] + ", and it stays: " + later[0][1])
+    return bad, early
+
+
+def run_fault_scenario(sc):
+    base = tempfile.mkdtemp(prefix="c19f_", dir=C.scratch_dir())
+    try:
+        open(os.path.join(base, "dbfsfault.py"), "w").write(FMOD)
+        return C.run_driver("drive_dbfs_fault.py", dict({k: v for k, v in sc.items() if k != "shape"}, base=base))
+    except Exception as e:  # noqa
+        return {"error": str(e)[-400:]}
+    finally:
+        shutil.rmtree(base, ignore_errors=True)
+
+
+def describe_fault(sc, t):
+    f = t["fault"]
+    step = sc["faulted"]
+    op = f"keep({step['keep'][0]}, {step['keep'][1]})" if "keep" in step else f"eval({step['eval']})" if "eval" in step else f"load({step['load']})"
+    kinds = "/".join(sc["defaults"][k] for k in ("KA", "KB", "KT")) if "nested" in sc["shape"] else sc["defaults"]["KA"]
+    call = "?" if not t["fired"] else t["fired"][0] + "(" + " -> ".join(c.replace(BLOBS, "blobs/")[:30] for c in t["fired"][1:]) + ")"
+    how = {"before": "raised without effect", "after": "took effect and then raised", "torn": "left a truncated file and raised"}[f[1]]
+    return (f"commit type {sc['commit_type']}, scenario {sc['shape']} ({op}, result type {kinds}, {len(sc['prefix'])} evaluation(s) before): file-system call #{f[0]} "
+            f"of it, {call}, {how} ({'Exception' if f[2] == 'error' else 'BaseException'})")
+
+
+def check_faults(rep, rng, tier):
+    t0 = time.time()
+    scs = fault_scenarios(rng, tier)
+    with cf.ThreadPoolExecutor(max_workers=C.NPROC) as ex:
+        res = list(ex.map(run_fault_scenario, scs))
+    stats = {"scenarios": len(scs), "shapes": sorted(set(s["shape"] for s in scs)), "faults_enumerated": 0, "trials": 0, "fault_fired": 0,
+             "by_call": {}, "by_mode": {}, "by_exception": {}, "faulted_call": {"raised": 0, "returned": 0}}
+    for sc, r in zip(scs, res):
+        replay = {"fault_case": sc}
+        if "error" in r:
+            rep.violation("harness-error:c19-fault", r["error"][-300:], replay, no_input=True)
+            continue
+        ref = r["ref"]
+        head = f"commit type {sc['commit_type']}, scenario {sc['shape']}, no fault: "
+        # the fault-free trial: the property itself; and its blobs (key -> value) are values of the plain execution
+        pl = Plain(sc["defaults"])
+        plain_values = set()
+        for s in sc["prefix"] + [sc["faulted"]] + sc["after"]:
+            try:
+                pl.do(s)
+            except KeyError:
+                pass
+            plain_values |= set("V:" + repr(v) for v in pl.kept.values())
+        refmap = {k: b["fetch"] for k, b in ref["end"]["blobs"].items() if b["has"] == "V:True"}
+        rep.case(json.dumps({"fault": None, "shape": sc["shape"], "commit_type": sc["commit_type"], "defaults": sc["defaults"]}), nontrivial=False)
+        if ref["mode"] != expected_mode(sc["commit_type"]):
+            rep.violation(f"commit-type-wrong:{sc['commit_type']}", head + f"mode {ref['mode']}", replay)
+            continue
+        ref_bad = check_fault_trial(sc, ref, {}, plain_values)[0]
+        ref_bad += [("blob-of-no-result", f"blob {k[:6]}.. holds {v[:50]}, which no kept function returned") for k, v in refmap.items() if v not in plain_values]
+        for key, text in ref_bad:
+            rep.violation("no-fault:" + key, head + text, dict(replay, trial=ref))
+        if ref_bad:
+            continue            # no trustworthy reference for the trials
+        stats["faults_enumerated"] += r["enumerated"]
+        for t in r["trials"]:
+            n, fmode, exc = t["fault"]
+            stats["trials"] += 1
+            rep.case(json.dumps({"fault": t["fault"], "shape": sc["shape"], "commit_type": sc["commit_type"], "defaults": sc["defaults"]}), nontrivial=t["fired"] is not None)
+            if t["fired"] is None:
+                continue
+            stats["fault_fired"] += 1
+            for d, v in (("by_call", t["fired"][0]), ("by_mode", fmode), ("by_exception", exc)):
+                stats[d][v] = stats[d].get(v, 0) + 1
+            stats["faulted_call"]["returned" if t["faulted"].startswith("V:") else "raised"] += 1
+            # input classes with a key of their own: a read (head) that fails with an ordinary Exception - code that takes any failed
+            # read for 'no such file' cannot tell it from absence -, and what only shows when the change is taken back after the fault
+            bad, early = check_fault_trial(sc, t, refmap, plain_values)
+            pre = "fault-read-error:" if (t["fired"][0], exc) == ("head", "error") else "fault-then-revert:" if sc["shape"].startswith("revert") and not early else "fault:"
+            for key, text in bad[:1]:       # the first one: the others follow from it
+                rep.violation(pre + key, describe_fault(sc, t) + "; " + text, {"fault_case": dict(sc, only=[t["fault"]]), "trial": t})
+    stats["wall_s"] = round(time.time() - t0, 1)
+    return stats
+
+
 def expected_mode(ct):
     n = (ct or "full").lower()
     return {"full": "FULL", "links_only": "LINK_ONLY", "link_only": "LINK_ONLY", "none": "NO_COMMIT", "no_commit": "NO_COMMIT"}[n]
@@ -214,7 +523,15 @@ def run(rep, tier, seed, proof_ok):
                 "record, 'links only' only the record, 'none' nothing; load works iff the record exists; and blobs whose metadata names "
                 "a legacy or current codec reference decode with the codec of that kind, also when a path is committed to them under each commit type; "
                 "+ store-level histories (blobs, sync_paths calls with 1..4 paths sharing keys, keys without blob) compared file for file and call "
-                "outcome for call outcome with the Coq model drun, and against the dictionary semantics; distinct = distinct case")
+                "outcome for call outcome with the Coq model drun, and against the dictionary semantics; "
+                "+ fault dimension: for each commit type x scenario (first keep of a str / bytes / object result, keep after a code change, unchanged keep, "
+                "keep of a present result at a second path, nested keeps committed by one call, nested keeps with one result present, evaluation that "
+                "loads, load, and a change taken back after the fault) the n-th dbutils.fs call (head / put / cp) of the evaluation fails, for EVERY n "
+                "(sampled for the nested scenarios in the quick tier), before its effect, after its effect, or leaving a truncated copy (cp; a put is taken to be atomic), with an "
+                "Exception or a BaseException; checks: a value the faulted call returns is the plain one; right after the fault no blob is reported "
+                "present (has_blob) unless fetch_blob returns its value, and load works for every record that exists; the same evaluation run again "
+                "without fault returns the plain value, leaves exactly the record / copy its commit type demands (copy byte-identical to blob and "
+                "result) and every path loads; expected values from plain execution of the module; distinct = distinct case")
     cases = []
     kinds = ["str", "bytes", "none", "obj"]
     for ct in DOCUMENTED + ENUM_NAMES:
@@ -315,13 +632,21 @@ def run(rep, tier, seed, proof_ok):
             if mode == "LINK_ONLY" and obj in listing:
                 rep.violation("links-only-copies-data", f"links-only commit wrote the data file {obj}", replay)
     check_findings(rep)
+    fd = check_faults(rep, random.Random(seed + 1), tier)
     hd = check_histories(rep, rng, 40 if tier == "quick" and proof_ok else 600)
-    rep.extra["input_distribution"] = {"store_level_histories": hd, "cases": len(cases), "commit_types": [str(x) for x in DOCUMENTED + ENUM_NAMES], "legacy_references": [x[0] for x in LEGACY]}
+    rep.extra["input_distribution"] = {"store_level_histories": hd, "fault_injection": fd, "cases": len(cases), "commit_types": [str(x) for x in DOCUMENTED + ENUM_NAMES], "legacy_references": [x[0] for x in LEGACY]}
     rep.sample({"commit_type": cases[0]["commit_type"], "plan": cases[0]["plan"]})
 
 
 def replay(path):
     r = json.load(open(path))["replay"]
+    if "fault_case" in r:
+        sc = r["fault_case"]
+        out = run_fault_scenario(sc)
+        for t in out.get("trials", []):
+            print(describe_fault(sc, t))
+            print(json.dumps({k: t[k] for k in ("faulted", "mid", "after", "loads", "end")}, indent=1)[:3000])
+        return 1
     if "history" in r:
         h = r["history"]
         base = tempfile.mkdtemp(prefix="c19h_", dir=C.scratch_dir())
